@@ -20,6 +20,8 @@ pub struct RState {
     pub endian: End,
     /// keep SSA versions apart (C10); otherwise scalars are keyed by name only
     pub versioned: bool,
+    /// read-only background memory regions (base, bytes) consulted when `mem` has no entry
+    pub bg: Vec<(u64, std::sync::Arc<Vec<u8>>)>,
 }
 
 #[derive(Clone, PartialEq, Eq, Debug, Hash)]
@@ -62,7 +64,7 @@ impl From<BvErr> for Fault {
 
 impl RState {
     pub fn new(endian: End) -> RState {
-        RState { scalars: BTreeMap::new(), mem: BTreeMap::new(), endian, versioned: false }
+        RState { scalars: BTreeMap::new(), mem: BTreeMap::new(), endian, versioned: false, bg: Vec::new() }
     }
     pub fn key(&self, s: &il::Scalar) -> SKey {
         (s.name().to_string(), if self.versioned { s.ssa() } else { None })
@@ -92,9 +94,13 @@ impl RState {
         let n = bits / 8;
         let mut bytes = Vec::with_capacity(n);
         for i in 0..n as u64 {
-            match self.mem.get(&addr.wrapping_add(i)) {
+            let a = addr.wrapping_add(i);
+            match self.mem.get(&a) {
                 Some(b) => bytes.push(*b),
-                None => return Err(Fault::Unmapped(addr.wrapping_add(i))),
+                None => match self.bg.iter().find(|(base, v)| a >= *base && a - *base < v.len() as u64) {
+                    Some((base, v)) => bytes.push(v[(a - *base) as usize]),
+                    None => return Err(Fault::Unmapped(a)),
+                },
             }
         }
         if self.endian == End::Big {
